@@ -237,6 +237,16 @@ def print_assumptions(prop, module, theorems, timeout=600):
     return True, res, out
 
 
+def coqchk(module, timeout=3000):
+    """Independent re-check of the compiled module and everything it depends on (thorough tier).
+    Returns (ok, summary_text)."""
+    with Lock(os.path.join(COQ, ".lock")):
+        rc, out, dt = sh(["coqchk", "-silent", "-o", "-Q", ".", "MS", module], cwd=COQ, timeout=timeout)
+    i = out.find("CONTEXT SUMMARY")
+    summ = out[i:] if i >= 0 else out[-2000:]
+    return rc == 0, summ
+
+
 def axioms_allowed(ax):
     return any(ax.startswith(p) or ax.split(".")[-1].startswith(p) for p in ALLOWED_AXIOM_PREFIXES)
 
@@ -502,6 +512,21 @@ def standard_check(spec, ctx, replay=None):
             for a in l:
                 if not axioms_allowed(a):
                     broken.append(("axiom", t, "theorem %s depends on non-allow-listed assumption %s" % (t, a)))
+    if okc and tier == "thorough" and not replay:
+        okk, summ = coqchk(spec["module"])
+        info.setdefault("extra_coverage", {})["coqchk"] = summ[:3000]
+        if not okk:
+            broken.append(("proof", "coqchk " + spec["module"], summ[-2000:]))
+        else:
+            m = re.search(r"\* Axioms:(.*?)\n\s*\n\* Constants", summ, re.S)
+            axs = [a.strip() for a in (m.group(1) if m else "").split("\n") if a.strip() and a.strip() != "<none>"]
+            info["extra_coverage"]["coqchk_axioms"] = axs
+            for a in axs:
+                if not axioms_allowed(a):
+                    broken.append(("axiom", "coqchk", "coqchk reports non-allow-listed axiom " + a))
+            for bad in ("type-in-type: <none>", "unsafe (co)fixpoints: <none>", "positivity is assumed: <none>"):
+                if bad not in summ:
+                    broken.append(("proof", "coqchk", "coqchk summary lacks '%s'" % bad))
     # ---- H
     okh, logh = build_harness()
     if not okh:
